@@ -110,7 +110,7 @@ def check_pass(design, seq2, refs, which, rseed, info):
         if old == new: continue
         obj = top
         if key[0]:
-          for part in key[0].split("."): obj = getattr(obj, part)
+          obj = rtl_sim.sig_of(obj, key[0])
         cur = int(rtl_sim.sig_of(obj, key[1]).to_bits())
         for (k2, bit) in r:
           if k2 == key and ((old >> bit) & 1) != ((new >> bit) & 1) and ((cur >> bit) & 1) != ((new >> bit) & 1):
@@ -213,7 +213,7 @@ def judge(case):
 
 @st.composite
 def cases(draw):
-  design = draw(rtl_gen.designs(uu=True, ff=draw(st.booleans()), index_chain=3))
+  design = draw(rtl_gen.designs(uu=True, ff=draw(st.booleans()), index_chain=3, ifcs=draw(st.booleans())))
   seq = draw(rtl_gen.input_seqs(design, ncycles=2))
   seeds = draw(st.lists(st.integers(0, 2 ** 20), min_size=3, max_size=3))
   ring = draw(st.sampled_from([0, 0, 0, 0, 2, 3, 4]))
@@ -227,6 +227,7 @@ def run_shard(ctx):
   def t(case):
     if ctx.out_of_time(): return
     ctx.count()
+    for f_ in rtl_gen.features(case["design"]): ctx.label(f_)
     v = judge(case)
     if case["ring"]:
       ctx.label(f"constraint_ring_{case['ring']}")
